@@ -143,14 +143,7 @@ def run(ck, prog, tier, load):
     c_seg = [m for (bd, bb, t, m) in method_calls_on_field(prog, r"\.actix_router::path::Path\.segments$", bodies=[reset])]
     ck.ob("C11-d.path-reset", reset.npath, any(e[:3] == ("const", None, 0) for bb, e in w_skip) and "clear" in c_seg, reset, None,
           "Path::reset sets skip=0 and clears the captured segments")
-    upd = prog.one(r"^actix_router::url::Url::update$")
-    for fld in ("uri", "path"):
-        ws = [bb for bb, i, s in upd.assigns() if (last_field_of_stmt(s) or "").endswith("actix_router::url::Url." + fld)]
-        ok, wit = (False, None)
-        if ws:
-            ok, wit = upd.must_pass([0], upd.returns(), ws)
-        ck.ob("C11-d.url-update", fld, ok, upd, ws[0] if ws else None, "Url::update overwrites Url.%s on every path (a conditional overwrite lets the previous request's value survive recycling)" % fld, witness=upd.path_lines(wit))
-
+    url_update(ck, prog, "C11-d")
     # ---- (e) RequestHead pool (actix-http)
     RH = "actix_http::requests::head::RequestHead"
     adt2 = prog.adts.get(RH)
@@ -215,3 +208,15 @@ def run(ck, prog, tier, load):
 def last_field_of_stmt(s):
     fl = [x for x in s["p"][1:] if isinstance(x, str) and x.startswith(".")]
     return fl[-1] if fl else None
+
+
+def url_update(ck, prog, P):
+    """Url::update (called when a pooled request object is reused) overwrites both the URI and the cached re-quoted
+    path unconditionally; shared by C11 (isolation) and C09 (routing uses this request's path)"""
+    upd = prog.one(r"^actix_router::url::Url::update$")
+    for fld in ("uri", "path"):
+        ws = [bb for bb, i, s in upd.assigns() if (last_field_of_stmt(s) or "").endswith("actix_router::url::Url." + fld)]
+        ok, wit = (False, None)
+        if ws:
+            ok, wit = upd.must_pass([0], upd.returns(), ws)
+        ck.ob(P + ".url-update", fld, ok, upd, ws[0] if ws else None, "Url::update overwrites Url.%s on every path (a conditional overwrite lets the previous request's value survive recycling)" % fld, witness=upd.path_lines(wit))
